@@ -4,7 +4,9 @@
      shouldAcceptMessage in gjkr / beacon result / tecdsa dkg (2x) / tecdsa signing / inactivity
      the Receive methods calling it (27 call sites)
      announcer.Announce, coordinationExecutor.executeFollowerRoutine,
-     signingDoneCheck.isValidDoneMessage (3 direct IsValidMembership call sites).
+     signingDoneCheck.isValidDoneMessage (3 direct IsValidMembership call sites; the done check
+     as repaired by /repo commit 85c6ed7 "fix: tbtc signing done check must count confirmations
+     only from members included in the attempt").
    Member indexes, operator addresses, keys, session ids ... are N identifiers.  The function
    from a network public key to a chain address (chain.Signing.PublicKeyBytesToAddress) is an
    oracle: a Section variable.  No proofs here. *)
@@ -85,7 +87,8 @@ Record ctx := { x_self : list N;   (* own member index(es); several only for the
                 x_leader : N;      (* follower: address of the leader *)
                 x_allowed : list N;(* follower: allowed actions *)
                 x_timeout : N;     (* done check: attempt timeout block *)
-                x_done : list N }. (* done check: members whose done message is already stored *)
+                x_done : list N;   (* done check: members whose done message is already stored *)
+                x_attempt : list N }. (* done check: members included in the signing attempt *)
 
 Inductive outcome := Ignored | Stored | FaultImpersonation | FaultMistake | Proposal | Malformed.
 
@@ -147,6 +150,7 @@ Section Admission.
         end
     | KDone, PDone message attempt endblock has_sig =>
         if memN (m_idx m) (x_done x) then Ignored
+        else if negb (memN (m_idx m) (x_attempt x)) then Ignored
         else if negb (valid_membership (x_ops x) (m_idx m) (m_key m)) then Ignored
         else if negb (message =? x_protocol x) then Ignored
         else if negb (attempt =? x_session x) then Ignored
@@ -163,7 +167,8 @@ Section Admission.
     | KDone, Stored =>
         {| x_self := x_self x; x_ops := x_ops x; x_grp := x_grp x; x_session := x_session x;
            x_protocol := x_protocol x; x_leader := x_leader x; x_allowed := x_allowed x;
-           x_timeout := x_timeout x; x_done := m_idx m :: x_done x |}
+           x_timeout := x_timeout x; x_done := m_idx m :: x_done x;
+           x_attempt := x_attempt x |}
     | _, _ => x
     end.
   Fixpoint run (s : step) (x : ctx) (msgs : list msg) : list (msg * outcome) :=
@@ -195,7 +200,15 @@ Definition holds_index_b (ops : list N) (idx a : N) : bool :=
 Definition documents_self (s : step) : bool :=
   match kind_of s with KDone => false | _ => true end.
 Definition documents_excluded (s : step) : bool :=
-  match kind_of s with KPlain | KKeyed => true | _ => false end.
+  match kind_of s with KPlain | KKeyed | KDone => true | _ => false end.
+(* excluded: marked inactive / disqualified / not a member index (the 27 shouldAcceptMessage
+   steps); not included in the signing attempt (done check) *)
+Definition excluded_at (s : step) (x : ctx) (idx : N) : bool :=
+  match kind_of s with
+  | KPlain | KKeyed => negb (is_operating (x_grp x) idx)
+  | KDone => negb (memN idx (x_attempt x))
+  | _ => false
+  end.
 
 (* the message belongs to the receiver's session (session id; announcer: and protocol;
    follower: coordination block and wallet; done check: attempt and message) *)
@@ -227,7 +240,7 @@ Definition spec_ok (s : step) (x : ctx) (m : msg) (a : N) (o : outcome) : bool :
       holds_index_b (x_ops x) (m_idx m) a
       && (negb (documents_self s) || negb (memN (m_idx m) (x_self x)))
       && same_session x m
-      && (negb (documents_excluded s) || is_operating (x_grp x) (m_idx m))
+      && negb (excluded_at s x (m_idx m))
   end.
 
 (* ---------- cases of the correspondence check ---------- *)
